@@ -8,7 +8,7 @@ import json
 import os
 import re
 
-TRANSPARENT_METHODS = {"clone", "to_owned", "copied", "cloned"}
+TRANSPARENT_METHODS = {"clone", "to_owned", "copied", "cloned", "take"}  # only without arguments (Option::take moves the value out; Iterator::take(n) has an argument)
 
 
 def walk(n):
